@@ -35,10 +35,10 @@ LEVEL_NOTE = (
 TECHNIQUE = ("Lean 4 proof (induction over byte streams / reply scripts of a state-machine model) + differential correspondence with the "
              "real RspHandler over a scripted fake transport")
 RULE = ("payloads: all strings of length <=4 (thorough; <=3 quick) over {a,$,#,},*,'} with ALL 2^(n-1) chunkings of their packet, all 128 "
-        "single characters; checksum fields: all 128x128 two-character fields on 3 bodies plus one-digit corruptions on every payload; ack "
+        "single characters; checksum fields: all 128x128 two-character fields on 3 bodies (1 quick) plus one-digit corruptions on every payload; ack "
         "scripts: all sequences over {+,-} of length <=12 (thorough; <=8 quick) x retries {1,2,3,10}; replies with notifications/noise: "
         "all scripts of length <=4 (<=3 quick) over 10 reply templates; receiver streams: all sequences of <=4 (<=3 quick) items from a pool "
-        "of 9 + random; random mixed scenarios (stale acks, missing/double acks, retries<=0). distinct = distinct case; non-trivial = "
+        "of 9, every single frame with data of length <=4 (<=3 quick) over {a,},],^C} and a good checksum, + random; random mixed scenarios (stale acks, missing/double acks, retries<=0). distinct = distinct case; non-trivial = "
         "case with an escaped character, more than one chunk, a nack, an interleaved frame, or an error outcome")
 TRUSTED = [
     "hand model Model.Rsp of ppci/binutils/dbg/gdb/rsp.py (generator -> explicit state machine, Queue(maxsize=1) -> Option, "
@@ -251,7 +251,7 @@ def gen_cases(ctx, R):
         p = "".join(rng.choice(ALPHA + "bc01\x00\x7f\x03\n]") for _ in range(n))
         cases.append({"kind": "loop", "payload": hx(p), "chunks": [rng.getrandbits(64) for _ in range(6)] + [0, (1 << 64) - 1]})
     # ---- checksum field ---------------------------------------------------------------------
-    for body in ("", "\x05", "a}]"):
+    for body in (("", "\x05", "a}]") if ctx.thorough else ("\x05",)):
         for a in range(128):
             for b in range(128):
                 cases.append({"kind": "cks", "body": hx(body), "c1": a, "c2": b})
@@ -290,6 +290,11 @@ def gen_cases(ctx, R):
     for n in range(1, M + 1):
         for t in itertools.product(range(len(pool)), repeat=n):
             cases.append({"kind": "recv", "items": [pool[i] for i in t]})
+    # every packet-data string a foreign peer could send (escape pairs the ppci sender never produces), good checksum
+    for n in range(M + 1):
+        for t in itertools.product("a}]\x03", repeat=n):
+            body = "".join(t)
+            cases.append({"kind": "recv", "items": ["f" + hx(body) + "/" + hx("%02x" % (sum(body.encode()) % 256))]})
     for _ in range(400 if ctx.thorough else 80):
         n = rng.randint(1, 10)
         items = []
@@ -298,8 +303,13 @@ def gen_cases(ctx, R):
             if k < 0.5:
                 items.append(frame_item(R, rng.choice(P), good=rng.random() < 0.7))
             elif k < 0.7:
-                body = "".join(rng.choice("a}*'$+-\x03") for _ in range(rng.randint(0, 5)))
-                items.append("f" + hx(body) + "/" + hx("".join(rng.choice("0123456789abcdefABCDEFg +") for _ in range(2))))
+                # a frame as a foreign peer might write it: arbitrary data (any escape pairs), usually a correct checksum
+                body = "".join(rng.choice("a}]*'$+-\x03") for _ in range(rng.randint(0, 6)))
+                if rng.random() < 0.75:
+                    cc = (rng.choice(("%02X", "%02x")) % (sum(body.encode()) % 256))
+                else:
+                    cc = "".join(rng.choice("0123456789abcdefABCDEFg +") for _ in range(2))
+                items.append("f" + hx(body) + "/" + hx(cc))
             else:
                 items.append("n" + hx(rng.choice("az#'}*0 \x00\x7f")))
         if rng.random() < 0.4:
@@ -520,6 +530,10 @@ def eval_cks(ctx, rep, R, c, out):
             if not im.deliv and b"+" not in im.tr.sent:
                 rep.fail("checksum:bad-frame-not-nacked", f"frame {frame!r} has a bad checksum but was answered {show_ll(im.tr.sent)} "
                          f"(no '-')", c, state=im.state())
+            elif not is_hex and not int16_matches(field, body):
+                rep.fail("checksum:unreadable-field-accepted", f"frame {frame!r}: checksum field {field!r} is not even readable by "
+                         f"int(.,16) as the sum, but the frame was answered {show_ll(im.tr.sent)}, {len(im.deliv)} message(s) delivered",
+                         c, state=im.state())
             elif not is_hex:
                 rep.fail("checksum:lax-field-accepted", f"frame {frame!r}: checksum field {field!r} is not two hex digits but the frame "
                          f"was answered {show_ll(im.tr.sent)} and {len(im.deliv)} message(s) delivered", c, state=im.state())
@@ -531,6 +545,13 @@ def eval_cks(ctx, rep, R, c, out):
         if im.tr.sent != [b"+"] or [d.encode("latin-1") for d in im.deliv] != [want]:
             rep.fail("checksum:good-frame-not-delivered", f"frame {frame!r} has a good checksum but sent={show_ll(im.tr.sent)} "
                      f"delivered={im.deliv!r}", c, state=im.state())
+
+
+def int16_matches(field, body):
+    try:
+        return int(field, 16) == sum(body) % 256
+    except ValueError:
+        return False
 
 
 def spec_sender(line):
@@ -740,7 +761,7 @@ def check(ctx):
     ctx.extra_cov["exhaustive_domains"] = [
         f"payloads of length <= {n} over {{a,$,#,}},*,'}} x all chunkings of their packet",
         f"ack scripts over {{+,-}} of length <= {12 if ctx.thorough else 8} x retries {{1,2,3,10}}",
-        "checksum fields: all 128x128 two-character fields on 3 bodies",
+        f"checksum fields: all 128x128 two-character fields on {3 if ctx.thorough else 1} bodies",
         f"reply scripts of length <= {n} over 10 templates with interleaved notifications",
         f"receiver streams of <= {n} items from a pool of 9",
     ]
